@@ -20,6 +20,7 @@ import (
 	vestingtypes "github.com/chain4energy/c4e-chain/x/cfevesting/types"
 	sdk "github.com/cosmos/cosmos-sdk/types"
 	authvesting "github.com/cosmos/cosmos-sdk/x/auth/vesting/types"
+	"github.com/cosmos/cosmos-sdk/x/feegrant"
 )
 
 type tFailer struct{ t *testing.T }
@@ -64,6 +65,29 @@ func TestRegressC10(t *testing.T) {
 			t.Fatalf("first block after importing a genesis exported after a burn panicked: %v", pan)
 		}
 		st.Case(true, "regress: export/import after burn")
+	}
+	// (2b) a fee allowance granted to the address of a collector module account that was not used yet puts a base
+	// account there; the distributor's next block must not panic, as destination or as source (F-FEEGRANTACC, fixed a19471e)
+	for _, asSource := range []bool{false, true} {
+		sub := DSub{Name: "a", Sources: []DAcc{{Type: tMain}}, Burn: "0", Primary: DAcc{Type: tModule, Id: distrtypes.GreenEnergyBoosterCollector}}
+		if asSource {
+			sub = DSub{Name: "a", Sources: []DAcc{{Type: tMain}, {Type: tModule, Id: distrtypes.GreenEnergyBoosterCollector}}, Burn: "0", Primary: DAcc{Type: tModule, Id: distrtypes.ValidatorsRewardsCollector}}
+		}
+		r := NewDistrRun(tFailer{t}, simpleCfg(sub), distrDenoms)
+		m, err := feegrant.NewMsgGrantAllowance(&feegrant.BasicAllowance{}, KeyAcc(4).Addr, ModuleAddr(distrtypes.GreenEnergyBoosterCollector))
+		if err != nil {
+			t.Fatal(err)
+		}
+		if res := RunMsg(r.W.App, r.Ctx, m); !res.OK() {
+			t.Logf("fee allowance for a module account address refused: %v", res.Err)
+		}
+		r.Inject(DAcc{Type: tMain}, Denom, big.NewInt(1001))
+		for i := 0; i < 2; i++ {
+			if pan := r.RunBlock(); pan != nil {
+				t.Fatalf("block after a fee allowance for the address of %s (used as source: %v) panicked: %v", distrtypes.GreenEnergyBoosterCollector, asSource, pan)
+			}
+		}
+		st.Case(true, "regress: fee allowance for a module account address")
 	}
 	// (3) a mint denomination the bank rejects must not be accepted (fixed F-DENOM)
 	{
